@@ -70,9 +70,12 @@ func (d *TCGEventData) Unmarshal(r io.Reader) error {
 	if err := binary.Read(r, binary.LittleEndian, &size); err != nil {
 		return err
 	}
-	chunk := make([]byte, size)
-	if n, err := r.Read(chunk); err != nil || uint32(n) != size {
-		return fmt.Errorf("failed to read TCGEventData sized %d (read %d bytes): %w", size, n, err)
+	chunk, err := readExactly(r, int64(size))
+	if err != nil {
+		return fmt.Errorf("failed to read TCGEventData sized %d (read %d bytes): %w", size, len(chunk), err)
+	}
+	if chunk == nil {
+		chunk = []byte{}
 	}
 	if size >= EventSignatureSize {
 		signature := chunk[:EventSignatureSize]
